@@ -3,7 +3,7 @@
    segments without accepted candidate, segments that are exactly one accepted candidate (the overlap
    rule skips every other start inside it), composition. *)
 From Verif Require Import Base Regex Token TokEngine Headers Blocks Spec HeaderSpec LexShapes Grammar GrammarAll.
-From Verif Require Import GrammarProofsParen GrammarProofsBrace GrammarProofsHeaders GrammarAllProofsWf.
+From Verif Require Import GrammarProofsParen GrammarProofsBrace GrammarProofsHeaders GrammarAllProofsTok.
 Open Scope nat_scope.
 
 (* ---------- accepted candidates ---------- *)
